@@ -20,7 +20,14 @@ def run (args : Json) : Except String Json := do
     | none => pure []
   let disc : Nat → Q := fun r => discTbl.getD (r - 1) 1
   let pat ← match getOpt args "pat" with | some v => ratOf v | none => pure (17/20)
+  let counts : List (Nat × Nat) ← match getOpt args "counts" with
+    | some v => (← v.getArr?).toList.mapM (fun e => do
+        match (← e.getArr?).toList with
+        | [i, c] => pure (← i.getNat?, ← c.getNat?)
+        | _ => throw "bad count")
+    | none => pure []
   let r : Option Q := match metric with
+    | "meanpop" => meanPopRank k (popQuantile counts) L
     | "hit" => hit k L T
     | "precision" => precision k L T
     | "recall" => recall k L T
